@@ -37,7 +37,9 @@ func writeEvidence(e *engine, results []*harnessResult, known []knownFinding, wa
 	redirs := map[string]bool{}
 	for _, r := range results {
 		states += r.st.completed
-		transitions += r.queries
+		// decisions taken along explored paths: one per path (its enumerated/branch prefix), solver-decided
+		// branch queries, domain-decided branches and verification conditions
+		transitions += r.st.paths + r.queries + r.st.domDecided + r.st.vcs
 		obligations += r.st.vcs
 		discharged += r.st.vcUnsat
 		inconclusive += r.st.inconclusive
@@ -126,6 +128,7 @@ func writeEvidence(e *engine, results []*harnessResult, known []knownFinding, wa
 	cov := map[string]interface{}{
 		"states":                        states,
 		"transitions":                   transitions,
+		"transitions_meaning":           "decisions along explored paths: paths started + solver branch queries + domain-decided branches + verification conditions",
 		"traces_validated_against_impl": validated,
 		"samples":                       samples,
 		"evaluations":                   states,
